@@ -31,7 +31,7 @@ def xpathNumber (s : String) : Float :=
   if !rest.isEmpty ∨ (ip.isEmpty ∧ fp.isEmpty) ∨ (ip.isEmpty ∧ !dot) then nan
   else
     let m := (ip ++ fp).foldl (fun a c => a * 10 + (c.toNat - 48)) 0
-    let v := Float.ofNat m / Float.ofNat (10 ^ fp.length)
+    let v := decToDouble m fp.length
     if neg then -v else v
 
 /-- `string(number)` for the values the generator lets reach a string conversion: NaN, ±Infinity, integers,
@@ -163,6 +163,23 @@ def nameOf (d : Doc) (m : Nat) : String :=
   | .elem | .attr | .pi => (d[m]?.map (·.name)).getD ""
   | _ => ""
 
+def localNameOf (d : Doc) (m : Nat) : String :=
+  let n := nameOf d m
+  match n.splitOn ":" with
+  | [_, l] => l
+  | _ => n
+
+/-- `lang(s)` (§4.3): the nearest `xml:lang` on the ancestor-or-self chain equals `s` or starts with `s-`, ignoring case -/
+def langOf (d : Doc) (n : Nat) : Option String :=
+  ((n :: d.ancestors n).filterMap fun e =>
+    ((d.ids.filter fun a => d.parentOf a == some e && d.isAttr a && nameOf d a == "xml:lang").head?).map fun a =>
+      (d[a]?.map (·.value)).getD "").head?
+
+def langMatches (v s : String) : Bool :=
+  let v := v.toLower
+  let s := s.toLower
+  v == s || v.startsWith (s ++ "-")
+
 def normalizeSpace (s : String) : String :=
   let ws := (s.toList.map fun c => if isSpaceC c then ' ' else c)
   let words := (String.ofList ws).splitOn " " |>.filter (· ≠ "")
@@ -225,9 +242,10 @@ def callFn (d : Doc) (c : Ctx) (position last : Float) (f : String) (args : List
   | "string-length", [] => .ok (.num (Float.ofNat (d.stringValue c.node).length))
   | "sum", [.nodes l] => .ok (.num (l.foldl (fun acc m => acc + xpathNumber (d.stringValue m)) 0.0))
   | "name", [] => .ok (.str (nameOf d c.node))
-  | "local-name", [] => .ok (.str (nameOf d c.node))
+  | "local-name", [] => .ok (.str (localNameOf d c.node))
+  | "lang", [v] => .ok (.bool (match langOf d c.node with | some l => langMatches l (v.toStr d) | none => false))
   | "name", [v] => (firstNode v).map fun o => .str ((o.map (nameOf d)).getD "")
-  | "local-name", [v] => (firstNode v).map fun o => .str ((o.map (nameOf d)).getD "")
+  | "local-name", [v] => (firstNode v).map fun o => .str ((o.map (localNameOf d)).getD "")
   | "contains", [a, b] => .ok (.bool (((a.toStr d).splitOn (b.toStr d)).length > 1 || (b.toStr d) == ""))
   | "starts-with", [a, b] => .ok (.bool ((a.toStr d).startsWith (b.toStr d)))
   | "substring-before", [a, b] =>
